@@ -247,3 +247,81 @@ class Gen:
       steps.append([sc, op])
       D.apply_op(impl, sc, op)
     return [list(self.quirks), init, steps]
+
+# ---- exhaustive small-scope sweep (thorough tier): every operation kind x every position of every small tree x a fixed
+#      menu of arguments, one step per case ----------------------------------------------------------------------------------
+def small_scope_cases(quirks=()):
+  """Yields (description, case).  Trees: a root of each kind with up to two children drawn from a menu (leaf, empty and
+  non-empty Dict / List, an Object, a sealed Dict), plus a second root to refer to.  Every node of the first root is a target."""
+  mk, P, V, R, INS, sc = D.mk, D.P, D.V, D.R, D.INS, D.sc
+  F = D.F
+  children = [1, {}, {'a': 1}, [], [2, {'b': 1}], ('obj', 1, {'x': 1}), F({'s': 1}, sealed=1), F([3], aw=0)]
+  roots = []
+  for c1 in children:
+    roots.append({'p': c1})
+    roots.append([c1])
+    roots.append(('obj', 1, {'x': c1}))
+    for c2 in children[:5]:
+      roots.append({'p': c1, 'q': c2})
+      roots.append([c1, c2])
+  other = {'o': {'i': 1}}
+  scopes = [D.NS, sc(notify=[False]), sc(sealed=[True]), sc(aw=[False]), sc(sealed=[False], aw=[True])]
+  def positions(v, path=()):
+    yield path, v
+    if isinstance(v, dict) and '__lit__' not in v:
+      for k, x in v.items():
+        yield from positions(x, path + (k,))
+    elif isinstance(v, list):
+      for i, x in enumerate(v):
+        yield from positions(x, path + (i,))
+    elif isinstance(v, tuple) and v and v[0] == 'obj':
+      for k in D.CLASS_FIELDS[v[1]]:
+        yield from positions(v[2].get(k), path + (k,))
+  def kind(v):
+    if isinstance(v, dict): return 0
+    if isinstance(v, list): return 1
+    if isinstance(v, tuple) and v and v[0] == 'obj': return 2
+    return -1
+  def unwrap(v):
+    if isinstance(v, dict) and '__lit__' in v:
+      lt = v['__lit__']
+      return {} if lt[1] == 0 else []
+    return v
+  values = lambda path: [V(7), V('MISSING'), [0, mk({'n': 1}, plain=1)], V(F({'z': [1]}, sealed=1)), R(1), R(1, 'o'), R(0), R(0, *path[:1]) if path else R(0)]
+  ek = D.enc_key
+  for root in roots:
+    for path, node in positions(root):
+      k = kind(unwrap(node)) if not (isinstance(node, dict) and '__lit__' in node) else (0 if node['__lit__'][1] == 0 else 1)
+      if k < 0:
+        continue
+      pos = P(0, *path)
+      n = len(unwrap(node)) if k == 1 else 0
+      ops = []
+      vals = values(path)
+      if k == 1:
+        for i in sorted({0, -1, n, n + 2, -n - 1}):
+          for v in vals: ops.append([D.LSET, pos, i, v]); ops.append([D.LINSERT, pos, i, v])
+          ops.append([D.LDEL, pos, i]); ops.append([D.LPOP, pos, [i]])
+        for v in vals: ops.append([D.LAPPEND, pos, v]); ops.append([D.LINSERT, pos, 0, INS(v)] if False else [D.LAPPEND, pos, v])
+        ops += [[D.LEXTEND, pos, vals[:3]], [D.LEXTEND, pos, []], [D.LIADD, pos, [vals[0], vals[4]]], [D.LADD, pos, [vals[0], vals[5]]],
+                [D.LPOP, pos, []], [D.LREMOVE, pos, [2, 2]], [D.LREMOVE, pos, [2, 99]], [D.LCLEAR, pos], [D.LREVERSE, pos],
+                [D.LSORT, pos, [1, 0], 0], [D.LSORT, pos, [0, 0], 1], [D.LCOPY, pos]]
+        for m in (-1, 0, 1, 2): ops += [[D.LIMUL, pos, m], [D.LMUL, pos, m]]
+        ops += [[D.REBIND, pos, [[[ek(0)], v]]] for v in vals]
+        if n > 0:      # (distinct paths only: a Python dict cannot hold the same path twice)
+          ops += [[D.REBIND, pos, [[[ek(n)], INS(V(5))], [[ek(0)], V('MISSING')]]]]
+      elif k == 0:
+        for key in ('p', 'a', 'zz', 3):
+          for v in vals: ops.append([D.DSET, pos, 0, ek(key), v]); ops.append([D.DSETDEFAULT, pos, ek(key), v])
+          ops += [[D.DSET, pos, 1, ek(key), vals[0]], [D.DDEL, pos, 0, ek(key)], [D.DDEL, pos, 1, ek(key)], [D.DPOP, pos, ek(key), []], [D.DPOP, pos, ek(key), [[2, 9]]]]
+        ops += [[D.DPOPITEM, pos], [D.DCLEAR, pos], [D.DCOPY, pos], [D.DUPDATE, pos, []], [D.DIOR, pos, []]]
+        ops += [[D.DUPDATE, pos, [[ek('p'), v], [ek('n'), V(1)]]] for v in vals] + [[D.DIOR, pos, [[ek('zz'), v]]] for v in vals]
+        ops += [[D.REBIND, pos, [[[ek('p')], v]]] for v in vals] + [[D.REBIND, pos, []], [D.REBIND, pos, [[[], V(1)]]], [D.REBIND, pos, [[[ek('nope'), ek('x')], V(1)]]]]
+      else:
+        for key in ('x', 'y', 'w'):
+          for v in vals: ops.append([D.OSET, pos, ek(key), v])
+        ops += [[D.REBIND, pos, [[[ek('x')], v]]] for v in vals] + [[D.REBIND, pos, [[[ek('w')], V(1)]]]]
+      ops += [[D.CLONE, pos, m] for m in range(4)] + [[D.SEAL, pos, 0], [D.SEAL, pos, 1], [D.SETAW, pos, 0], [D.SETAW, pos, 1]]
+      for op in ops:
+        for s in scopes:
+          yield [list(quirks), [mk(root), mk(other)], [[s, op]]]
